@@ -522,16 +522,19 @@ impl Scenario for CleanRace {
         let a = t.actor(0, Some(&ctl));
         let cfg = self.cfg.clone();
         actors.push(Box::pin(async move {
+            let opened = std::sync::atomic::AtomicU64::new(0);
             let r = async {
                 let ds = a.open().await?;
+                opened.store(ds.version().version, std::sync::atomic::Ordering::SeqCst);
                 let c = CleanCase { ops: vec![], env: EnvVariant { aged: cfg.aged, orphan: "none".into() }, policy: cfg.policy.clone(), delete_unverified: cfg.delete_unverified, error_if_tagged: false };
                 let p = build_policy(&ds, &c).await?;
                 ds.cleanup_with_policy(p).await
             }
             .await;
+            let opened = opened.load(std::sync::atomic::Ordering::SeqCst);
             match r {
-                Ok(s) => ActorResult::ok(json!({"old_versions": s.old_versions})),
-                Err(e) => ActorResult::err(err_class(&e), json!(e.to_string())),
+                Ok(s) => ActorResult::ok(json!({"old_versions": s.old_versions, "opened": opened})),
+                Err(e) => ActorResult::err(err_class(&e), json!({"error": e.to_string(), "opened": opened})),
             }
         }));
         // actor 1: writer
@@ -590,8 +593,13 @@ impl Scenario for CleanRace {
         let (listed, probs) = survivors_intact(&r, &self.pre_snaps, &what).await;
         out.extend(probs);
         let latest_pre = *self.pre_snaps.keys().max().unwrap();
-        if !listed.contains(&latest_pre) {
-            out.push(("removed-latest".into(), format!("{what}: v{latest_pre} (latest when cleanup started) is gone")));
+        // the version the cleanup's own handle was opened at (the latest it knew) must survive
+        let opened = match &exec.ends[0] {
+            Some(ActorEnd::Finished(r)) => r.detail["opened"].as_u64().unwrap_or(0),
+            _ => 0,
+        };
+        if opened > 0 && !listed.contains(&opened) {
+            out.push(("removed-latest".into(), format!("{what}: v{opened} (latest when cleanup opened the table) is gone")));
         }
         let writer_ok = labels.get(1).map(|l| l == "ok").unwrap_or(false);
         let max_listed = listed.iter().max().cloned().unwrap_or(0);
